@@ -181,7 +181,7 @@ def use(call, hist):
     out, leaves = call()
     handles = [out]
     if hist != "fwd":
-        g = torch.autograd.grad(contraction(out), leaves, create_graph=(hist == "bwd2"), allow_unused=True, retain_graph=True)
+        g = torch.autograd.grad(contraction(out), leaves, create_graph=(hist in ("bwd2", "bwdg")), allow_unused=True, retain_graph=True)
         handles += [x for x in g if x is not None]
     if hist == "bwd2":
         s = sum((x ** 2).sum() for x in handles[1:])
@@ -200,7 +200,7 @@ def run(ctx):
     with warnings.catch_warnings():
         warnings.simplefilter("ignore")
         for name, mk in scenarios(thorough, ctx.seed):
-            for hist in ("fwd", "bwd", "bwd2"):
+            for hist in ("fwd", "bwd", "bwdg", "bwd2"):      # bwdg: graph-recording backward whose result is dropped without differentiating again
                 gid += 1
                 ctx.case(key=(name, hist))
                 try:
